@@ -813,3 +813,64 @@ func VH_C10_keys() {
 	}
 	vReach("end")
 }
+
+// H-C10-smp: the TLVs that carry the SMP messages, against the layout of the
+// specification ("SMP message 1..4", "SMP abort"): TLV type, the length field,
+// the element count, the elements as minimum-length MPIs in the prescribed
+// order, the NUL-terminated question of type 7 - with one element of arbitrary
+// two-byte value (also with leading zero bytes, also zero) in each position.
+//
+// vh: prop=C10 expect=end unwind=400 timeout=60000
+func VH_C10_smp() {
+	kind := vChoose("kind", 6)
+	counts := []int{6, 6, 11, 8, 3, 0}
+	types := []uint16{2, 7, 3, 4, 5, 6}
+	n := counts[kind]
+	vals := make([]*big.Int, n)
+	for i := range vals {
+		vals[i] = big.NewInt(int64(0x1100 + 7*i))
+	}
+	if n > 0 {
+		vals[vChoose("which", n)] = new(big.Int).SetBytes(vBytes("val", 2))
+	}
+	var t tlv
+	var want []byte
+	switch kind {
+	case 0:
+		t = smp1Message{g2a: vals[0], c2: vals[1], d2: vals[2], g3a: vals[3], c3: vals[4], d3: vals[5]}.tlv()
+	case 1:
+		q := vBytes("q", vChoose("qlen", 3))
+		vhNoNUL(q)
+		t = smp1Message{hasQuestion: true, question: string(q), g2a: vals[0], c2: vals[1], d2: vals[2], g3a: vals[3], c3: vals[4], d3: vals[5]}.tlv()
+		want = append(append(want, q...), 0)
+	case 2:
+		t = smp2Message{g2b: vals[0], c2: vals[1], d2: vals[2], g3b: vals[3], c3: vals[4], d3: vals[5], pb: vals[6], qb: vals[7], cp: vals[8], d5: vals[9], d6: vals[10]}.tlv()
+	case 3:
+		t = smp3Message{pa: vals[0], qa: vals[1], cp: vals[2], d5: vals[3], d6: vals[4], ra: vals[5], cr: vals[6], d7: vals[7]}.tlv()
+	case 4:
+		t = smp4Message{rb: vals[0], cr: vals[1], d7: vals[2]}.tlv()
+	case 5:
+		t = smpMessageAbort{}.tlv()
+	}
+	vObserve("smptlv", kind, t.tlvType, t.tlvLength, t.tlvValue)
+	vAssert("tlv-type", t.tlvType == types[kind])
+	vAssert("tlv-length-field-matches-value", int(t.tlvLength) == len(t.tlvValue))
+	if kind == 5 {
+		// "The associated length should be zero and the associated value should be empty."
+		if len(t.tlvValue) != 0 {
+			if len(t.tlvValue) == 4 && t.tlvValue[0] == 0 && t.tlvValue[1] == 0 && t.tlvValue[2] == 0 && t.tlvValue[3] == 0 {
+				vFinding("smp-abort-tlv-carries-a-zero-count-instead-of-an-empty-value")
+			} else {
+				vAssert("abort-tlv-empty", false)
+			}
+		}
+		vReach("end")
+		return
+	}
+	want = rInt(want, uint32(n))
+	for _, v := range vals {
+		want = rMPI(want, v)
+	}
+	vAssert("smp-tlv-value-exact", vAll(len(t.tlvValue) == len(want), vBytesEq(t.tlvValue, want)))
+	vReach("end")
+}
